@@ -410,6 +410,8 @@ func checkConv(p *Prog, r *Report, pkg, prop string) {
 		ruleComparatorsSymmetric(p, r, map[string]bool{pkg: true}, map[string]int{"panos": 9, "nsx": 1}[pkg])
 		ruleSides(p, r, "R-SIDE", prop, map[string]bool{pkg: true}, map[string]int{"panos": 17, "nsx": 8}[pkg])
 	}
+	ruleAppendDiscipline(p, r, "R-KE", pkg, "diff.go", map[string]int{"panos": 16, "nsx": 20, "linux": 3}[pkg])
+	ruleCaseFolding(p, r, "R-FOLD", prop, map[string]bool{pkg: true})
 	ruleRegexpConsts(p, r, "R-RX", prop, 1)
 	if pkg == "panos" || pkg == "nsx" {
 		ruleLookupsAudited(p, r, "R-LK", prop, map[string]int{"panos": 10, "nsx": 6}[pkg])
